@@ -999,3 +999,38 @@ def fold_format_constants(fn: ast.AST) -> bool:
     if changed:
         ast.fix_missing_locations(fn)
     return changed
+
+
+def unroll_unpacked_comprehension(fn: ast.AST) -> bool:
+    """`a, b, c = (F(i) for i in range(3))` (also a list comprehension / over a literal tuple) -> `a = F(0); b = F(1); c = F(2)`"""
+    changed = False
+    for blk in _blocks(fn):
+        i = 0
+        while i < len(blk):
+            s = blk[i]
+            if isinstance(s, ast.Assign) and len(s.targets) == 1 and isinstance(s.targets[0], ast.Tuple) and isinstance(s.value, (ast.GeneratorExp, ast.ListComp)) \
+                    and len(s.value.generators) == 1 and not s.value.generators[0].ifs and isinstance(s.value.generators[0].target, ast.Name) \
+                    and all(isinstance(t, ast.Name) for t in s.targets[0].elts):
+                g = s.value.generators[0]
+                k = len(s.targets[0].elts)
+                vals = None
+                if isinstance(g.iter, ast.Call) and isinstance(g.iter.func, ast.Name) and g.iter.func.id == "range" and len(g.iter.args) == 1 \
+                        and isinstance(g.iter.args[0], ast.Constant) and g.iter.args[0].value == k:
+                    vals = [ast.Constant(j) for j in range(k)]
+                elif isinstance(g.iter, (ast.Tuple, ast.List)) and len(g.iter.elts) == k:
+                    vals = list(g.iter.elts)
+                if vals is not None:
+                    out = []
+                    for t, v in zip(s.targets[0].elts, vals):
+                        class S(ast.NodeTransformer):
+                            def visit_Name(self, n):
+                                return copy.deepcopy(v) if n.id == g.target.id and isinstance(n.ctx, ast.Load) else n
+                        out.append(ast.copy_location(ast.Assign([t], S().visit(copy.deepcopy(s.value.elt))), s))
+                    blk[i : i + 1] = out
+                    changed = True
+                    i += k
+                    continue
+            i += 1
+    if changed:
+        ast.fix_missing_locations(fn)
+    return changed
